@@ -66,7 +66,8 @@ def _taylor_case(draw, tier):
     combo = draw(st.sampled_from(sdes.accepted_combos(include_grad_free=True, all_levy=False)))
     additive = combo["noise_type"] == "additive"
     return {"kind": "taylor", "combo": combo, "f": draw(_terms()), "g": draw(_terms(additive=additive)),
-            "t0": draw(st.sampled_from([0.0, 0.3, 1.1, -0.6])), "y0": draw(st.sampled_from([0.0, 0.4, -0.9, 1.3, 0.15]))}
+            "t0": draw(st.sampled_from([0.0, 0.3, 1.1, -0.6])), "y0": draw(st.sampled_from([0.0, 0.4, -0.9, 1.3, 0.15])),
+            "nominal_dt": draw(st.sampled_from([0.37, 1.0, 1e-3, 0.05]))}
 
 
 @st.composite
@@ -173,8 +174,10 @@ def _run_taylor(case):
         A = torch.zeros(B, 1, 1, dtype=torch.float64)
         stub = brownian_tools.make_stub((B, 1), torch.float64, combo["levy"], lambda ta, tb: (dW, U, A))
         cls = methods.select(combo["method"], combo["sde_type"])
-        solver = cls(sde=base_sde.ForwardSDE(sde), bm=stub, dt=h, adaptive=False, rtol=1e-3, atol=1e-3, dt_min=1e-5,
-                     options=dict(combo["options"]))
+        # the solver's nominal dt is deliberately unrelated to the step actually requested: step(t0, t1, ...) must depend
+        # on t1 - t0 only (a clipped last step, an adaptive trial and a resumed solve all take steps != dt)
+        solver = cls(sde=base_sde.ForwardSDE(sde), bm=stub, dt=case.get("nominal_dt", 0.37), adaptive=False, rtol=1e-3,
+                     atol=1e-3, dt_min=1e-5, options=dict(combo["options"]))
         p = float(solver.strong_order)
         with torch.no_grad():
             extra = solver.init_extra_solver_state(t0, y0)
@@ -242,7 +245,7 @@ def _run_exact(case):
     t0 = torch.tensor(case["t0"], dtype=torch.float64)
     stub = brownian_tools.make_stub((B, m), torch.float64, "none", lambda ta, tb: (dW, None, None))
     cls = methods.select(case["method"], spec["sde_type"])
-    solver = cls(sde=base_sde.ForwardSDE(sde), bm=stub, dt=h, adaptive=False, rtol=1e-3, atol=1e-3, dt_min=1e-5,
+    solver = cls(sde=base_sde.ForwardSDE(sde), bm=stub, dt=0.37, adaptive=False, rtol=1e-3, atol=1e-3, dt_min=1e-5,
                  options={})
     with torch.no_grad():
         y1, _ = solver.step(t0, t0 + h, y0, ())
